@@ -46,6 +46,12 @@ type RTErr struct {
 	What string
 }
 
+// Any is a value the manual does not determine (the result of an xpcall whose
+// message handler failed, Ext.HandlerErrAny).  It may only be passed around
+// and emitted; every operation that would depend on it is Unspec.  It matches
+// any single value of the implementation (MatchCanonX).
+type Any struct{}
+
 // PosMark prefixes string error messages that carry "chunk:line:".
 const posMark = "\x01@"
 
@@ -80,6 +86,8 @@ func typeName(v Value) string {
 		return "function"
 	case *Coro:
 		return "thread"
+	case *Any:
+		unspec("type of an undetermined value")
 	}
 	return "?"
 }
@@ -90,6 +98,9 @@ func truth(v Value) bool {
 	}
 	if b, ok := v.(bool); ok {
 		return b
+	}
+	if _, ok := v.(*Any); ok {
+		unspec("truth of an undetermined value")
 	}
 	return true
 }
@@ -189,6 +200,12 @@ func rawEqual(a, b Value) bool {
 		}
 		return refnum.Cmp(x, y) == 0
 	}
+	if _, ok := a.(*Any); ok {
+		unspec("comparison of an undetermined value")
+	}
+	if _, ok := b.(*Any); ok {
+		unspec("comparison of an undetermined value")
+	}
 	if _, ok := a.(*Func); ok {
 		if _, ok := b.(*Func); ok && a != b {
 			// closures of one prototype without distinguishable upvalues
@@ -264,6 +281,8 @@ func (c *Canon) Value(v Value) string {
 		return "F" // identity of functions is not compared (§3.4.4)
 	case *Coro:
 		return "C#" + strconv.Itoa(c.id('C', x))
+	case *Any:
+		return "ANY"
 	}
 	return "?"
 }
